@@ -37,7 +37,7 @@ RULE = (
 )
 ASSUMPTIONS = [
     "a source line is delimited by \\r\\n, \\r or \\n (the documented line breaks since 3.0); 'inside the source' means 1 <= lineno <= 1 + number of line breaks",
-    "'never hangs' is decided by size bounds (<= 400 characters, bounded nesting and numeric magnitudes), not by timing; a 60 s per-case watchdog only turns the run into a harness error",
+    "'never hangs': inputs are bounded (<= 400 characters, bounded nesting and numeric magnitudes); a load that burns 30 CPU-seconds of its own process (ITIMER_VIRTUAL, independent of machine load; normal loads take milliseconds) is judged a hang; a 120 s wall-clock watchdog only turns the run into a harness error",
     "the recursion limit during a case is pinned to 950 frames above the oracle's frame, i.e. what a caller near the top of a script with the default limit of 1000 gets",
     "F2 (CPython nesting limits) and F19 (unbounded constant folding) are excluded by measured depth / magnitude, never by exception signature",
     "F37 (identifiers that are not NFKC-stable): sources that are not NFKC-normalised are excluded and counted",
@@ -202,15 +202,36 @@ def _on_alarm(signum, frame):
     raise _Watchdog(path)
 
 
-WATCHDOG_S = 60
+WATCHDOG_S = 120
+CPU_HANG_S = 30
+
+
+class _CpuHang(BaseException):
+    pass
+
+
+def _on_vtalrm(signum, frame):
+    raise _CpuHang()
 
 
 def guarded(case):
+    """Two guards.  (1) CPU time: ITIMER_VIRTUAL counts user-mode CPU seconds of this process only, so it does
+    not depend on machine load; a load of a <= 400 character source normally costs milliseconds (worst measured
+    legitimate case about 1.5 s), so CPU_HANG_S CPU-seconds without returning is judged as 'hangs' (a violation of
+    the property's "never hangs").  (2) wall clock: a case stuck without burning CPU only makes the run
+    inconclusive (exit 2)."""
     _current["case"] = case
     signal.alarm(WATCHDOG_S)
+    signal.setitimer(signal.ITIMER_VIRTUAL, CPU_HANG_S)
     try:
         return check_case(case)
+    except _CpuHang:
+        raise core.Violation(
+            "loading did not finish within %d CPU-seconds (source of %d characters, environment %r): hangs"
+            % (CPU_HANG_S, len(case.get("src", "")) if isinstance(case, dict) else -1, case.get("env") if isinstance(case, dict) else None)
+        ) from None
     finally:
+        signal.setitimer(signal.ITIMER_VIRTUAL, 0)
         signal.alarm(0)
 
 
@@ -270,6 +291,7 @@ def run_shard(spec, ctx):
 
     _limit_memory()
     signal.signal(signal.SIGALRM, _on_alarm)
+    signal.signal(signal.SIGVTALRM, _on_vtalrm)
     rec = core.Rec()
     EXCLUDED_BY.clear()
     try:
